@@ -119,6 +119,18 @@ def make_identifier_from_name(name, default_identifier="dagrt_var"):
     return result
 
 
+def make_function_identifier_from_name(name):
+    """Like :func:`make_identifier_from_name`, but the result may be used on
+    its own (not only behind a prefix), so it must not start with a digit
+    or be a reserved word.
+    """
+    from keyword import iskeyword
+    result = make_identifier_from_name(name)
+    if result[0] in digits or iskeyword(result):
+        result = "f_" + result
+    return result
+
+
 class _KeyTranslatingUniqueNameGeneratorWrapper:
 
     def __init__(self, generator, translate):
